@@ -2543,6 +2543,17 @@ impl VectorEngine {
             return Err(VectorError::InvalidTopK);
         }
 
+        // The index scores a query against stored vectors element by element: a query of another
+        // dimension would be scored on a prefix (longer) or index out of bounds (shorter).
+        if let Some(stored) = index.get_vector(0) {
+            if stored.len() != query.len() {
+                return Err(VectorError::DimensionMismatch {
+                    expected: stored.len(),
+                    got: query.len(),
+                });
+            }
+        }
+
         let results = index.search(query, top_k);
 
         if deadline.is_expired() {
@@ -2586,6 +2597,15 @@ impl VectorEngine {
         }
         if top_k == 0 {
             return Err(VectorError::InvalidTopK);
+        }
+
+        if let Some(stored) = index.get_vector(0) {
+            if stored.len() != query.len() {
+                return Err(VectorError::DimensionMismatch {
+                    expected: stored.len(),
+                    got: query.len(),
+                });
+            }
         }
 
         // Fetch 2x candidates from HNSW
